@@ -4,6 +4,7 @@ mod driver;
 mod expect;
 mod framework;
 mod gen;
+mod oracles;
 mod scen;
 mod session;
 mod stream;
